@@ -243,6 +243,9 @@ class _ProbeMixin:
 
     def initial_state(self, config=None):
         init = self.parameters.get('init')
+        if self.parameters.get('init_by_reference'):
+            # a process that returns a dictionary it keeps
+            return init
         return copy.deepcopy(init) if init else {}
 
     def calculate_timestep(self, states):
